@@ -255,6 +255,25 @@ def shared_name_reach_cases():
                     yield f"{kind}, {first} listed first, {order}{' (repaired)' if repaired else ''}", {"name": "g", "nodes": nodes, "bind": {}}, repaired
 
 
+def three_target_cases():
+    """A route with THREE exclusive targets b1,b2,b3.  join(t, i=None) is downstream of b1 and b2 (not of b3); p(t) is
+    downstream of b1 only; both produce `r`.  On branch b1 both run: not exclusive, not ordered -> rejected for every
+    listing order of the targets and of the nodes.  Repaired (p -> r2) is accepted.  Yields (label, spec, must_accept)."""
+    import itertools
+
+    for perm in itertools.permutations(["b1", "b2", "b3"]):
+        for order in ("jp", "pj"):
+            for repaired in (False, True):
+                gate = {"k": "route", "name": "g", "params": [{"n": "k"}], "targets": list(perm), "table": list(perm)}
+                b1 = {"k": "fn", "name": "b1", "params": [{"n": "k"}], "outs": ["t"]}
+                b2 = {"k": "fn", "name": "b2", "params": [{"n": "k"}], "outs": ["i"]}
+                b3 = {"k": "fn", "name": "b3", "params": [{"n": "k"}], "outs": ["o3"]}
+                j = {"k": "fn", "name": "join", "params": [{"n": "t", "d": None}, {"n": "i", "d": None}], "outs": ["r"]}
+                p = {"k": "fn", "name": "p", "params": [{"n": "t", "d": None}], "outs": ["r2" if repaired else "r"]}
+                nodes = [gate, b1, b2, b3] + ([j, p] if order == "jp" else [p, j])
+                yield f"targets {'/'.join(perm)}, {order}{' (repaired)' if repaired else ''}", {"name": "g", "nodes": nodes, "bind": {}}, repaired
+
+
 def try_build(spec):
     from hypergraph import GraphConfigError
 
@@ -588,6 +607,17 @@ def run(ctx):
             elif not ok and st == "other-error":
                 ctx.violation("C19:flaw-wrong-error:duplicate-producer-downstream-of-shared-name", f"{label}: raised {e!r}", case)
         ctx.case({"directed": "shared-name-reach"}, True)
+        for label, spec, ok in three_target_cases():
+            st, e = try_build(spec)
+            ctx.obs["flaws_injected" if not ok else "must_accept_checked"] += 1
+            case = {"flawed": spec, "flaw": "duplicate-producer-on-one-of-three-branches", "position": label}
+            if ok and st != "accepted":
+                ctx.violation("C19:valid-graph-rejected:three-targets", f"{label}: rejected: {e!r}", case)
+            elif not ok and st == "accepted":
+                ctx.violation("C19:flaw-accepted:duplicate-producer-on-one-of-three-branches", f"{label}: join and p both run on branch b1 and both produce 'r', yet the graph was accepted", case)
+            elif not ok and st == "other-error":
+                ctx.violation("C19:flaw-wrong-error:duplicate-producer-on-one-of-three-branches", f"{label}: raised {e!r}", case)
+        ctx.case({"directed": "three-targets"}, True)
     for i in range(n):
         rng = ctx.rng
         r = rng.random()
